@@ -35,6 +35,9 @@ def write_if_changed(path, text):
 
 # ---------------------------------------------------------------- scanner
 
+SCAN_INPUT_OVERRIDE = ("{errno=0;while(((result)=(int)fread((buf),1,(yy_size_t)(max_size),yyin))==0&&ferror(yyin))"
+  "{if(errno!=EINTR){yyextra->input_error=1;break;}errno=0;clearerr(yyin);}}")
+READ_INPUT_ERROR = "__config_set_error(config,CONFIG_ERR_FILE_IO,__io_error);r=1;"
 SCAN_EOF_ACTION = ("{const char*error=NULL;FILE*fp;fp=libconfig_scanctx_next_include_file(yyextra,&error);"
   "if(fp){yyin=fp;yy_delete_buffer(YY_CURRENT_BUFFER,yyscanner);"
   "yy_switch_to_buffer(yy_create_buffer(yyin,YY_BUF_SIZE,yyscanner),yyscanner);}"
@@ -133,6 +136,22 @@ def scanner_tables(toks):
         eof_ok = bool(m) and normalise(m.group(1)) == SCAN_EOF_ACTION
     except ValueError:
         pass
+    # the YY_INPUT override (a failing fread is recorded and treated as end of input, no YY_FATAL_ERROR/exit)
+    # and the place where __config_read turns the record into the I/O error
+    input_ok = False
+    try:
+        k = src.index('#ifndef YY_INPUT')
+        mm = None
+        for mm in re.finditer(r'^#define YY_INPUT\(buf, ?result, ?max_size\)((?:.*\\\n)*.*\n)', src[:k], flags=re.M):
+            pass
+        lc = open(os.path.join(REPO, 'lib', 'libconfig.c')).read()
+        m2 = re.search(r'if\(scan_ctx\.input_error\)\s*\{(.*?)\n  \}', lc, flags=re.S)
+        input_ok = (mm is not None and normalise(mm.group(1).replace('\\\n', '\n')) == SCAN_INPUT_OVERRIDE
+                    and m2 is not None and normalise(m2.group(1)) == READ_INPUT_ERROR
+                    and lc.index('if(scan_ctx.input_error)') > lc.index('r = libconfig_yyparse(')
+                    and lc.index('if(scan_ctx.input_error)') < lc.index('libconfig_yylex_destroy(scanner);'))
+    except (ValueError, OSError):
+        pass
     n_acts = max([num_rules] + list(acts.keys()))
     act_list = [".unknown"] + [acts.get(r, ".unknown") for r in range(1, n_acts + 1)]
     L = []
@@ -166,10 +185,15 @@ def scanner_tables(toks):
     for n in ['INITIAL', 'SINGLE_LINE_COMMENT', 'MULTI_LINE_COMMENT', 'STRING', 'INCLUDE']:
         L.append('def SC_%s : Nat := %d' % (n, defines.get(n, 99)))
     L.append('')
+    L.append('/-- scanner.c carries the catalogued YY_INPUT override (a failing `fread` sets `input_error` and ends the')
+    L.append('input; flex\'s default would call YY_FATAL_ERROR, i.e. exit) and `__config_read` turns the record into')
+    L.append('the file I/O error after the parse -/')
+    L.append('def inputErrorHandled : Bool := %s' % ('true' if input_ok else 'false'))
+    L.append('')
     L.append('end Libconfig.Generated')
     write_if_changed(os.path.join(OUT, 'ScannerTables.lean'), '\n'.join(L) + '\n')
     return {'rules': num_rules, 'unknown_actions': [i for i, a in enumerate(act_list) if a == '.unknown' and i > 0],
-            'eof_action_known': eof_ok}
+            'eof_action_known': eof_ok, 'input_error_handled': input_ok}
 
 # ---------------------------------------------------------------- parser
 
